@@ -130,6 +130,29 @@ def bounded_cases(ctx: Ctx):
                 cases.append(dict(array=enc(vals), by=[enc(lab)], func=func, expected_groups=[[10.0, 20.0, 30.0]], axis=ax if i % 2 else [a - len(ashape) for a in ax],
                                   fill_value=(0 if func == "count" else "nan"), engine=[None, "numpy", "flox"][i % 3],
                                   chunks=[([1] * s if (split_batch and d < nb) else [s]) for d, s in enumerate(ashape)], method=None))
+    # axes given in MIXED sign forms (the larger axis negative, the smaller positive, in either order): sorting the raw numbers
+    # is not sorting the axes (added after seeded change C08-axes-sorted-before-normalizing was missed: all-positive and
+    # all-negative forms only)
+    for func in ["nansum", "max", "count"]:
+        for ashape, bnd in [((2, 3), 2), ((2, 2, 3), 3), ((2, 2, 3), 2), ((2, 3, 2, 2), 3)]:
+            nb = len(ashape) - bnd
+            label_axes = list(range(nb, len(ashape)))
+            for sub in [c_ for r in range(2, bnd + 1) for c_ in itertools.combinations(label_axes, r)]:
+                for chunked in (False, True):
+                    i += 1
+                    n = int(np.prod(ashape))
+                    al = [-2.0, -1.0, 0.0, 1.0, 3.0, np.nan]
+                    vals = np.array([al[rng.integers(len(al))] for _ in range(n)]).reshape(ashape)
+                    bshape = ashape[-bnd:]
+                    lab = np.array([[10.0, 20.0, 30.0, np.nan][rng.integers(4)] for _ in range(int(np.prod(bshape)))]).reshape(bshape)
+                    ax = [a for a in sub[:-1]] + [sub[-1] - len(ashape)]  # e.g. (0, -1)
+                    if i % 2:
+                        ax = ax[::-1]
+                    c = dict(array=enc(vals), by=[enc(lab)], func=func, expected_groups=[[10.0, 20.0, 30.0]], axis=ax, fill_value=(0 if func == "count" else "nan"), engine=[None, "numpy", "flox"][i % 3])
+                    if chunked:
+                        c["chunks"] = [([1] * s_ if (i + d) % 2 == 0 else [s_]) for d, s_ in enumerate(ashape)]
+                        c["method"] = [None, "map-reduce"][(i // 2) % 2]
+                    cases.append(c)
     return cases
 
 
@@ -142,7 +165,7 @@ def run(ctx: Ctx):
     if getattr(ctx, "only", None) != "proof":
         run_bounded(
             ctx, "C08.rtc.slices", FUNCTION, bounded_cases(ctx), "vlib.props.C08:check",
-            bound="value arrays of rank 1-4 (sizes 2-3), label arrays of rank 1-3, non-empty subsets of the label axes as axis (negative and permuted forms), NaN labels distributed unevenly, eager and chunked along every axis; 12 reductions",
+            bound="value arrays of rank 1-4 (sizes 2-3), label arrays of rank 1-3, non-empty subsets of the label axes as axis (negative, permuted and mixed-sign forms), NaN labels distributed unevenly, eager and chunked along every axis; 12 reductions",
             rule="case = (reduction, shapes, axis subset, values, labels, plan); oracle = for every index of the kept dims, the 1-D grouped reduction of that slice by the same function (itself covered by C01); then chunked == eager; non-trivial = at least one kept dim",
             nontrivial=lambda c: len(c["array"]["shape"]) >= 2,
         )
